@@ -85,7 +85,7 @@ def showErr : Option Err → String
   | some (.mk (.os e)) => "os:" ++ showFErr e
   | some (.vf (.os e)) => "os:" ++ showFErr e
   | some (.vf (.diff strict d)) =>
-    "verify:" ++ (if strict then "1" else "0") ++ ":" ++
+    "verify:" ++
       (if strict then ",".intercalate (sortStrings (d.extra.map hexOf)) else "") ++ ":" ++
       ",".intercalate (sortStrings (d.missing.map hexOf))
   | some .nilNode => "nilnode"
